@@ -10,6 +10,14 @@ func main() { Main("C02", c02) }
 
 var alphabet = []byte{0x7e, 0x7d, 0x01, 0x02, 0x00, 0x41}
 
+var allBytes = func() []byte {
+	b := make([]byte, 256)
+	for i := range b {
+		b[i] = byte(i)
+	}
+	return b
+}()
+
 func c02(c *Ctx) {
 	defer DrainFrameProblems(c, "C02")
 	c.Rule = "(i) all strings of length <= 6 (7 thorough) over {7e,7d,01,02,00,41}; (ii) valid header templates {2013,2019} x {fragmented,not} with every body of length <= 3 over the alphabet, checksum right / wrong by each single bit / unescaped-7d variant, declared length -1/0/+1, uninterpreted attribute bits set; (iii) every single-bit corruption, every truncation and every one-byte extension of random valid frames; (iv) random strings and random valid frames; oracle = an independent reference decoder written from the standard; non-trivial = delimited at both ends with a non-empty interior (reaches unescaping); distinct = distinct byte string"
@@ -146,6 +154,91 @@ func c02(c *Ctx) {
 		for n := 0; n <= len(f); n++ {
 			g := append(append(append([]byte{}, f[:n]...), byte(rng.Intn(256))), f[n:]...)
 			one(g, "extended")
+		}
+		// single-byte substitutions: every position takes every byte of the special alphabet (all 255 other
+		// values in the thorough tier)
+		if i < 20 || !c.Quick() {
+			for n := 0; n < len(f); n++ {
+				subs := alphabet
+				if !c.Quick() {
+					subs = allBytes
+				}
+				for _, v := range subs {
+					if v == f[n] {
+						continue
+					}
+					g := append([]byte{}, f...)
+					g[n] = v
+					one(g, "bytesub")
+				}
+			}
+		}
+	}
+	// (iii-a) wire-level interiors: every string of length <= 3 (4 thorough) over the alphabet spliced UNESCAPED
+	// into the body position of a valid 2013 / 2019 header (declared length = the unescaped length the standard
+	// would read, check code recomputed over that reading when the splice is a valid escape sequence, over the raw
+	// bytes otherwise): valid and invalid escape pairs and raw specials inside frames of valid length
+	{
+		maxw := 3
+		if !c.Quick() {
+			maxw = 4
+		}
+		var ws [][]byte
+		var genw func(cur []byte)
+		genw = func(cur []byte) {
+			ws = append(ws, append([]byte{}, cur...))
+			if len(cur) == maxw {
+				return
+			}
+			for _, a := range alphabet {
+				if a == 0x7e {
+					continue // an interior delimiter is outside the property's domain
+				}
+				genw(append(cur[:len(cur):len(cur)], a))
+			}
+		}
+		genw(nil)
+		for ver := uint8(0); ver < 2; ver++ {
+			bcd := make([]byte, 6+4*int(ver))
+			for i := range bcd {
+				bcd[i] = byte(0x10 + i)
+			}
+			for _, w := range ws {
+				// the payload the standard reads from the wire bytes w (nil when w is not a valid escape sequence)
+				var body []byte
+				valid := true
+				for i := 0; i < len(w); i++ {
+					if w[i] == 0x7d {
+						if i+1 < len(w) && (w[i+1] == 0x01 || w[i+1] == 0x02) {
+							body = append(body, 0x7d+w[i+1]-1)
+							i++
+						} else {
+							valid = false
+							break
+						}
+					} else {
+						body = append(body, w[i])
+					}
+				}
+				if !valid {
+					body = w // declare the raw length: the frame must still be rejected for its escape sequence
+				}
+				m := RefMsg{ID: 0x0200, Ver: ver, Bcd: bcd, Serial: 0x0102, Body: body}
+				p := RefPayload(m, 0, 1)
+				head := p[:len(p)-len(body)]
+				x := RefXor(p)
+				frame := append([]byte{0x7e}, head...)
+				frame = append(frame, w...)
+				if x == 0x7e {
+					frame = append(frame, 0x7d, 0x02)
+				} else if x == 0x7d {
+					frame = append(frame, 0x7d, 0x01)
+				} else {
+					frame = append(frame, x)
+				}
+				frame = append(frame, 0x7e)
+				one(frame, "interior")
+			}
 		}
 	}
 	// (iii-b) every declared body length 0..1023 (all ten bits of the length field), both versions, with and
